@@ -38,7 +38,7 @@ def cases(tier, seed):
              "fill": fill, "join": join, "balanced": balanced, "obids": obids, "obstarts": obstarts}
         yield "tx.dump", {"table": table, "mode": mode, "px": px, "o": o, "header": h % 5 == 0,
                           "wexp": [rng.choice([0, 1, 2, -1]) for _ in range(n)] if balanced else [],
-                          "chunk": rng.choice([1, 2, 3, 10 ** 6])}
+                          "chunk": rng.choice([1, 2, 3, 10 ** 6]), **({"at": ["/resolutions/10", "/a/b"][h % 2]} if h % 5 == 3 else {})}
     # (2) field layouts at arbitrary, non-monotone column numbers
     nl = 220 if tier == "quick" else 4000
     for h in range(nl):
@@ -77,7 +77,7 @@ def cases(tier, seed):
         yield "tx.roundtrip", {"table": table, "mode": mode, "px": gen.random_store(rng, len(table), mode, maxval=9),
                                "fmt": "coo" if h % 4 < 2 else "bg2", "one_based": h % 3 == 0,
                                "chunk": rng.choice([1, 3, 10 ** 6]), "chunk2": rng.choice([1, 2, 1000]),
-                               "max_merge": rng.choice([1, 2, 3, 200])}
+                               "max_merge": rng.choice([1, 2, 3, 200]), **({"at": "/resolutions/10"} if h % 5 == 2 else {})}
     # (4) resolution-spec spellings of `cooler zoomify -r`
     for drv, case in c09_cases("thorough" if tier == "thorough" else "quick", seed):
         if drv == "zm.resspec":
